@@ -223,3 +223,68 @@ package config
 //@   requires f != nil
 //@   modifies nothing
 //@   ensures result == f.valueShowUsage
+
+// ---- C09/C10: flag definitions (NewFlagSet, parseStructFields, parseStructFieldTag, newFlagValue) ----
+// reflect is modelled by assumed contracts over uninterpreted functions (/verif/contracts/std/reflect.spec).
+
+// the two tag syntaxes `name,value,usage` and `|name|value|usage`: body and separator of a tag text t
+//@ pure tagBody(t string) string = ite(len(t) > 0 && t[0] == '|', t[1:], t)
+//@ pure tagSep(t string) int = ite(len(t) > 0 && t[0] == '|', '|', ',')
+//@ pure sepAt(b string, c int, k int) bool = 0 <= k && k < len(b) && b[k] == c && forall j int {b[j]} :: 0 <= j && j < k ==> b[j] != c
+//@ pure noSep(b string, c int) bool = forall j int {b[j]} :: 0 <= j && j < len(b) ==> b[j] != c
+//@ pure orLower(n string, field string) string = ite(n == "", toLower(field), n)
+
+// name, default text and usage are the first, second and remaining parts of the tag; an empty name is the
+// lower-cased field name; extra separators belong to the usage
+//@ func parseStructFieldTag
+//@   modifies nothing
+//@   ensures one: noSep(tagBody(tagGet(field.Tag, "flag")), tagSep(tagGet(field.Tag, "flag"))) ==> value == "" && usage == "" && name == orLower(tagBody(tagGet(field.Tag, "flag")), field.Name)
+//@   ensures two: forall k int {tagBody(tagGet(field.Tag, "flag"))[k]} :: sepAt(tagBody(tagGet(field.Tag, "flag")), tagSep(tagGet(field.Tag, "flag")), k) && noSep(tagBody(tagGet(field.Tag, "flag"))[k+1:], tagSep(tagGet(field.Tag, "flag"))) ==> value == tagBody(tagGet(field.Tag, "flag"))[k+1:] && usage == "" && name == orLower(tagBody(tagGet(field.Tag, "flag"))[:k], field.Name)
+//@   ensures three: forall k int, m int {tagBody(tagGet(field.Tag, "flag"))[k], tagBody(tagGet(field.Tag, "flag"))[k+1:][m]} :: sepAt(tagBody(tagGet(field.Tag, "flag")), tagSep(tagGet(field.Tag, "flag")), k) && sepAt(tagBody(tagGet(field.Tag, "flag"))[k+1:], tagSep(tagGet(field.Tag, "flag")), m) ==> value == tagBody(tagGet(field.Tag, "flag"))[k+1:][:m] && usage == tagBody(tagGet(field.Tag, "flag"))[k+1:][m+1:] && name == orLower(tagBody(tagGet(field.Tag, "flag"))[:k], field.Name)
+
+// the Value of a field is a view of the field itself (same cell), and the tag default has been Set into it
+//@ func newFlagValue
+//@   requires reflCanAddr(v) && reflExported(v)
+//@   modifies cell(ifaceRef(reflIface(reflAddrOf(v)))), ghostfields(lastSet), ghostfields(setCount)
+//@   ensures ok: err == nil ==> value != nil && ifaceRef(value) == ifaceRef(reflIface(reflAddrOf(v))) && value.lastSet == defValue
+//@   ensures bad: value == nil ==> err != nil
+
+// String renders the current value and changes nothing
+//@ iface Value.String(v)
+//@   requires v != nil
+//@   modifies nothing
+//@   attr blocking no
+
+// Assumption about NewFlagSet's argument (reflUser): what reflection reaches from it are cells of the user's struct,
+// not internals of this package (userCell). Propagates to fields; stated once, as a precondition of NewFlagSet.
+//@ uf reflUser(reflect.Value) bool
+//@ axiom refl_user_field: forall v reflect.Value, i int {reflField(v, i)} :: reflUser(v) ==> reflUser(reflField(v, i))
+//@ axiom refl_user_cell: forall v reflect.Value {reflAddrOf(v)} :: reflUser(v) ==> userCell(ifaceRef(reflIface(reflAddrOf(v))))
+
+// a definable flag name: no leading '-', no '='
+//@ pure goodName(k string) bool = !(len(k) >= 1 && k[0:1] == "-") && !strContains(k, "=")
+// flag definitions are well-formed: every name maps to a flag with a Value; every listed flag has a Value that is a
+// view of a user cell (or one of the two built-in cells), is found under its own name, and has no cli/env text yet
+//@ pure FD(f *FlagSet) bool = f != nil && f.flagMap != nil && (forall k string {has(f.flagMap, k)} :: has(f.flagMap, k) ==> f.flagMap[k] != nil && f.flagMap[k].Value != nil)
+//@   | && (forall i int {f.flagList[i]} :: 0 <= i && i < len(f.flagList) ==> f.flagList[i] != nil && f.flagList[i].Value != nil && f.flagList[i].ArgValue == nil && f.flagList[i].EnvValue == nil && notInternal(ifaceRef(f.flagList[i].Value)) && ownCell(f, ifaceRef(f.flagList[i].Value)) && has(f.flagMap, f.flagList[i].Name) && f.flagMap[f.flagList[i].Name] == f.flagList[i])
+
+//@ func (*FlagSet).parseStructFields
+//@   requires FD(f) && reflKind(structValue) == 25 && reflCanAddr(structValue) && reflExported(structValue) && reflUser(structValue)
+//@   modifies f.flagList, f.maxLength, spare(f.flagList), entries(f.flagMap), region(userCell), ghostfields(lastSet), ghostfields(setCount)
+//@   ensures keep: len(f.flagList) >= len(old(f.flagList)) && forall i int {f.flagList[i]} :: 0 <= i && i < len(old(f.flagList)) ==> f.flagList[i] == old(f.flagList)[i]
+//@   ensures fd: FD(f)
+//@   ensures array: (arr(f.flagList) == arr(old(f.flagList)) && off(f.flagList) == off(old(f.flagList)) && cap(f.flagList) == cap(old(f.flagList))) || fresh(arr(f.flagList))
+//@   ensures names: forall k string {has(f.flagMap, k)} :: has(f.flagMap, k) ==> old(has(f.flagMap, k)) || goodName(k)
+//@   ghost before call Underscore assert env: arg0 == f.envKeyPrefix + group + field.Name && arg1
+//@   ghost before call parseStructFields assert group: arg2 == group + field.Name + "_"
+//@   loop 1
+//@     invariant 0 <= i && structType == reflTypeOf(structValue) && f.flagMap == old(f.flagMap)
+//@     invariant f != nil && f.flagMap != nil && (forall k string {has(f.flagMap, k)} :: has(f.flagMap, k) ==> f.flagMap[k] != nil && f.flagMap[k].Value != nil)
+//@     invariant forall i int {f.flagList[i]} :: 0 <= i && i < len(f.flagList) ==> f.flagList[i] != nil && f.flagList[i].Value != nil && f.flagList[i].ArgValue == nil && f.flagList[i].EnvValue == nil
+//@     invariant forall i int {f.flagList[i]} :: 0 <= i && i < len(f.flagList) ==> notInternal(ifaceRef(f.flagList[i].Value)) && ownCell(f, ifaceRef(f.flagList[i].Value))
+//@     invariant forall i int {f.flagList[i]} :: 0 <= i && i < len(f.flagList) ==> has(f.flagMap, f.flagList[i].Name) && f.flagMap[f.flagList[i].Name] == f.flagList[i]
+//@     invariant len(f.flagList) >= len(old(f.flagList)) && forall j int {f.flagList[j]} :: 0 <= j && j < len(old(f.flagList)) ==> f.flagList[j] == old(f.flagList)[j]
+//@     invariant forall k string {has(f.flagMap, k)} :: has(f.flagMap, k) ==> old(has(f.flagMap, k)) || goodName(k)
+//@     invariant (arr(f.flagList) == arr(old(f.flagList)) && off(f.flagList) == off(old(f.flagList)) && cap(f.flagList) == cap(old(f.flagList))) || fresh(arr(f.flagList))
+//@     decreases rtNumField(structType) - i
+
